@@ -458,6 +458,8 @@ func (s *sut) classify(op string, key []byte, impl string) (site, kind, detail s
 	switch {
 	case impl == "panic":
 		return site + "." + opName[op], "panic", detail
+	case s.backend == "badger" && op == "next" && s.moves == 1 && s.rit.rev:
+		return site + ".Next", "first-Next-of-fresh-reverse-iterator-rewinds", detail
 	case s.backend == "badger" && op == "next" && s.moves == 1:
 		return site + ".Next", "fresh-iterator-already-positioned", detail
 	case s.emptyRevSeek:
